@@ -239,7 +239,10 @@ HintsInRange(wr, hs) ==
 \* the part of the outcome class that does not depend on the contents: "err" | "open"
 ConfigClass(wr, fmt, w, h, hs) == IF FmtName(fmt) # OwnFormat(wr) \/ w < 0 \/ h < 0 \/ HintErr(wr, hs) THEN "err" ELSE "open"
 MustErr(c) == c.cn = 0 \/ ConfigClass(c.wr, c.fmt, c.w, c.h, c.hints) = "err" \/ ContentErr(c)
-MustOk(c) == ~MustErr(c) /\ HintsInRange(c.wr, c.hints) /\ ContentOk(c)
+\* a requested size of 2^30 or more (reported clamped to 2^30: the driver also asks for sizes at the top of the int range) cannot be
+\* allocated: the reaction is not fixed, but T and D still bind
+HugeSize(c) == c.w >= 1073741824 \/ c.h >= 1073741824
+MustOk(c) == ~MustErr(c) /\ ~HugeSize(c) /\ HintsInRange(c.wr, c.hints) /\ ContentOk(c)
 Expect(c) == IF MustErr(c) THEN "err" ELSE IF MustOk(c) THEN "ok" ELSE "any"
 
 (* ------------------------------------------------------------------ D: the symbol and the matrix *)
